@@ -69,9 +69,9 @@ func init() {
 	})
 	addCheck(&CheckSpec{
 		Property: "C14", Level: "exploration",
-		Rule:   "index scenario (store layer): as C13 plus an OnQueryChange recorder evaluating queries and QueryChange.Events for generated queries inside the callback, on the index worker. qsub scenario (handler layer): store.QueryHandler on a simulated service over badgerstore+QueryStore: an ordinary resource over the whole index, ordinary resources parameterised by a key prefix with an AffectedResources callback, and a query resource; a reference client holds seven results, re-gets on system.reset and sends a query request on the subject announced by a query event; 1-2 mutator goroutines, the index worker and the query listeners are interleaved by the tape.",
+		Rule:   "index scenario (store layer): as C13 plus an OnQueryChange recorder evaluating queries and QueryChange.Events for generated queries inside the callback, on the index worker. qsub scenario (handler layer): store.QueryHandler on a simulated service over badgerstore+QueryStore: an ordinary resource over the whole index, ordinary resources parameterised by a key prefix with an AffectedResources callback, and a query resource; a reference client holds seven results, re-gets on system.reset and sends a query request on the subject announced by a query event; 1-2 mutator goroutines, the index worker and the query listeners are interleaved by the tape. qmock scenario (handler layer, event path): the same resources plus model-typed ones (IDToRIDModelTransformer) over a reference query store written for the harness whose query changes describe themselves by add/remove events instead of a reset, which badgerstore never does; the client applies the events of ordinary resources and of query responses (one query event at a time per result, requests optionally sent late) and must end up with what a fresh get returns.",
 		Oracle: "exactly one query-change callback per mutation that changes some index key and none otherwise, per id in mutation order, after the mutation; inside the callback a query for the new key already returns the id and for the old key no longer does; Events(q) reports affected whenever the reference result of q differs between the index state before and after the update, and unaffected whenever neither old nor new key matches q's prefix and filter; handler layer: at quiescence every result the client holds (updated only through the notifications it received) equals a fresh get.",
-		Scen:   []ScenBudget{{"index", 2500, 100000}, {"qsub", 1500, 60000}},
+		Scen:   []ScenBudget{{"index", 2500, 100000}, {"qsub", 1500, 60000}, {"qmock", 1500, 60000}},
 	})
 	addCheck(&CheckSpec{
 		Property: "C12", Level: "fault_enumeration", OwnsPanics: true,
@@ -109,8 +109,8 @@ func init() {
 	})
 	addCheck(&CheckSpec{
 		Property: "C07", Level: "exploration",
-		Rule:   "transport monitor on every Publish of the requests, core, events, queryevent, storecoh, qsub and legacy scenarios: results/models/collections/event payloads that are nil, nested, need escaping or cannot be marshalled; every meta combination on HTTP and non-HTTP requests; marshal failures and publish errors as injected faults.",
+		Rule:   "transport monitor on every Publish of the requests, core, events, queryevent, storecoh, qsub, qmock and legacy scenarios: results/models/collections/event payloads that are nil, nested, need escaping or cannot be marshalled; every meta combination on HTTP and non-HTTP requests; marshal failures and publish errors as injected faults.",
 		Oracle: "independent validator written from the RES protocol text: subject is a publishable NATS subject of a documented form (reply inbox handed out by the peer, event.<rid>.<name>, system.reset, system.tokenReset, conn.<cid>.token); payload has the documented shape for its kind (response with exactly one of result/resource/error, error with string code and message, meta only for HTTP requests, pre-response timeout:\"<ms>\", per-event fields).",
-		Scen:   []ScenBudget{{"requests", 5000, 300000}, {"core", 2000, 150000}, {"events", 2000, 150000}, {"queryevent", 1000, 60000}, {"storecoh", 600, 30000}, {"qsub", 400, 20000}, {"legacy", 400, 20000}},
+		Scen:   []ScenBudget{{"requests", 5000, 300000}, {"core", 2000, 150000}, {"events", 2000, 150000}, {"queryevent", 1000, 60000}, {"storecoh", 600, 30000}, {"qsub", 400, 20000}, {"qmock", 400, 20000}, {"legacy", 400, 20000}},
 	})
 }
